@@ -50,6 +50,8 @@ V = [
   "rho=rho, tmin=tmin, tmax=tmax, return_full_data=return_full_data, sim_kwargs=sim_kwargs)\n    else:", "R1c"),
  ("markov-helper-wrong-prob", ["C01"], B, "simulation", "_trans_and_rec_time_Markovian_const_trans_",
   "trans_prob = 1 - np.exp(-tau * duration)", "trans_prob = 1 - np.exp(-duration)", "MARKOV"),
+ ("fastsir-swap-rate-args", ["C01", "C11"], B, "simulation", "fast_SIR",
+  "rate = trans_rate_fxn(source, target)", "rate = trans_rate_fxn(target, source)", "MARKOV"),
  ("sir-handler-strict-rec", ["C01", "C11"], B, "simulation", "_process_trans_SIR_",
   "inf_time <= rec_time[target] and", "inf_time < rec_time[target] and", "H-guard"),
  ("sir-handler-no-pred-update", ["C01", "C11"], B, "simulation", "_process_trans_SIR_",
